@@ -70,6 +70,13 @@ Definition name_finish (acc : bytes) (no ns cap off rdl : N) : outcome (bytes * 
     if cap <? no then Bad OobWrite else
     if ns <? no then Bad AssertFail else Ok (removelast acc, off, rdl).
 
+(* name[i] = v *)
+Fixpoint setN (i v : N) (l : bytes) : bytes :=
+  match l with
+  | [] => []
+  | x :: r => if i =? 0 then v :: r else x :: setN (N.pred i) v r
+  end.
+
 Fixpoint name_loop (fuel : nat) (buf : bytes) (sz off rdl : N) (acc : bytes) (no ns cap rdepth : N)
   : outcome (bytes * N * N) :=
   match fuel with
@@ -93,7 +100,22 @@ Fixpoint name_loop (fuel : nat) (buf : bytes) (sz off rdl : N) (acc : bytes) (no
           if cap <? no then Bad OobWrite else
           if ns - no =? 0 then Bad AssertFail else
           match name_loop f buf sz ptr rdl acc 0 (ns - no) (cap - no) (rdepth + 1) with
-          | Ok (nm, _, rdl') => Ok (nm, off + dns_sizeof_ushort, rdl')
+          | Ok (nm, _, rdl') =>
+            (* if (rc == 0 && no > 0 && *(name + no) == '\0') *(name + no - 1) = '\0';
+               name + no is destination index lenN acc: the first octet the recursive call wrote *)
+            if 0 <? no then
+              if cap <=? no then Bad OobRead else
+              match nthN (lenN acc) (nm ++ [0]) with
+              | None => Bad OobRead
+              | Some b0 =>
+                if b0 =? 0 then
+                  (* the NUL written at no - 1 is the new terminator if the callee wrote nothing else,
+                     otherwise (callee's first label begins with a NUL octet) an embedded NUL *)
+                  Ok (if lenN nm =? lenN acc then removelast nm else setN (lenN acc - 1) 0 nm,
+                      off + dns_sizeof_ushort, rdl')
+                else Ok (nm, off + dns_sizeof_ushort, rdl')
+              end
+            else Ok (nm, off + dns_sizeof_ushort, rdl')
           | Err => Err
           | Bad b => Bad b
           end
